@@ -594,7 +594,7 @@ func TestC20(t *testing.T) {
 		Name: "long-history", Gen: genC20Long, Oracle: oracleC20Long,
 		NonTrivial: func(c c20Long) bool { return c.Fill >= 4100 },
 		Classes:    func(c c20Long) []string { return []string{fmt.Sprintf("fill-%d", c.Fill)} },
-		Budget:     ev.Budget{Quick: 3, Thorough: 24}, MinNonTrivial: 0.2, ShrinkTime: 20e9,
+		Budget:     ev.Budget{Quick: 3, Thorough: 4}, MinNonTrivial: 0.2, ShrinkTime: 20e9,
 	})
 	// every listed word alone and behind "old-" / "a\n": exhaustive over the lists
 	lists, _ := loadC20Lists()
